@@ -317,7 +317,8 @@ def main(tier, replay=None):
                 flush()
 
         r = C.run_tlc("MC_Precedence", name, workers=8, simulate=num, depth=depth, gendir=gd,
-                      timeout=3000, heap="8g", on_replay=on_case)
+                      timeout=3000 if tier == "quick" else 14400,      # TLC's clock includes the replay of what it emits
+                      heap="8g", on_replay=on_case)
         cmds.append(r.cmd)
         if r.violation:
             model_violation = (r.violation, what, r.errtext[:3000])
